@@ -174,6 +174,58 @@ static inline void F_(_iota)(LP_ *P, cstl_iter first, cstl_iter last, uint64_t v
 }
 #endif
 
+/* ---- specification helpers (used by representation invariants, not by extracted code) --------- */
+/* the list is one ring of exactly l->size element nodes through its sentinel, prev/next consistent,
+ * every node live and owned by this list */
+static inline bool F_(_wf)(const LP_ *P, const L_ *l)
+{
+    cstl_iter h = l->head;
+    if (!(h < CSTL_NP && P->alive[h] && P->sent[h] && P->owner[h] == h)) return false;
+    if (l->size > CSTL_NP - 1) return false;
+    cstl_iter cur = h;
+    for (uint64_t i = 0; i < CSTL_NP; i++)
+    {
+        if (i <= l->size)
+        {
+            cstl_iter nx = P->next[cur];
+            if (!(nx < CSTL_NP && P->alive[nx] && P->owner[nx] == h && P->prev[nx] == cur)) return false;
+            if (i < l->size) { if (P->sent[nx]) return false; }
+            else { if (nx != h) return false; }
+            cur = nx;
+        }
+    }
+    return true;
+}
+/* rank of node it counted from begin() (0-based); l->size for end(); CSTL_NP if not in the list */
+static inline uint64_t F_(_rank)(const LP_ *P, const L_ *l, cstl_iter it)
+{
+    cstl_iter cur = P->next[l->head];
+    for (uint64_t i = 0; i < CSTL_NP; i++)
+    {
+        if (cur == it) return i;
+        if (cur == l->head) return CSTL_NP;
+        cur = P->next[cur];
+    }
+    return CSTL_NP;
+}
+/* node at rank r (end() if r >= size) */
+static inline cstl_iter F_(_at_rank)(const LP_ *P, const L_ *l, uint64_t r)
+{
+    cstl_iter cur = P->next[l->head];
+    for (uint64_t i = 0; i < CSTL_NP; i++)
+    {
+        if (i == r || cur == l->head) return cur;
+        cur = P->next[cur];
+    }
+    return l->head;
+}
+static inline uint64_t F_(_pool_alive)(const LP_ *P)
+{
+    uint64_t n = 0;
+    for (cstl_iter i = 0; i < CSTL_NP; i++) if (P->alive[i]) n++;
+    return n;
+}
+
 #undef L_
 #undef LP_
 #undef F_
